@@ -427,3 +427,364 @@ def _dispatch_coexplore(inst, lean, cov, **kw):
 
 
 _explore.coexplore = _dispatch_coexplore
+
+
+# ---------------------------------------------------------------------------------------------------------------
+# BusSynchronizer / PulseSynchronizer
+
+class BusSyncInst:
+    """litex.gen.genlib.cdc.BusSynchronizer(width >= 2, "i", "o", timeout).
+       letter : (ti, to, mPing, mPong, mBuf, i)      outputs: [o]"""
+    FMT = "ti, to, ping flop catches new, pong flop catches new, obuffer first-flop mask, i"
+
+    def __init__(self, name, width, timeout, values=None, ratio_max=None):
+        from litex.gen.genlib.cdc import BusSynchronizer
+        self.name = name
+        self.width, self.timeout = width, timeout
+        self.module = m = BusSynchronizer(width, "i", "o", timeout=timeout)
+        self.lean_open = "bussync %d %d" % (width, timeout)
+        self.sp_ping = own_multiregs(m._ping)[0]
+        self.sp_pong = own_multiregs(m._pong)[0]
+        self.sp_buf = own_multiregs(m)[0]
+        self.netlist = CdcNetlist(m, clocks=("i", "o"))
+        self.mask_order = [id(self.sp_ping), id(self.sp_pong), id(self.sp_buf)]
+        self.values = list(values) if values is not None else list(range(1 << width))
+        self.qual = [None]
+        self.alphabet = None
+        self.ratio_max = ratio_max
+        self._pat = None
+
+    # mode A
+    def pst_init(self):
+        return 0
+
+    def pst_next(self, pst, letter, outs):
+        return 0
+
+    def base_letters(self, pst):
+        L = [(0, 1, self.values[0])]
+        for v in self.values:
+            L.append((1, 0, v))
+            L.append((1, 1, v))
+        return L
+
+    def cds_of(self, base):
+        return tuple(cd for cd, t in (("i", base[0]), ("o", base[1])) if t)
+
+    def make_letter(self, base, masks):
+        ti, to, v = base
+        return (ti, to, masks.get(id(self.sp_ping), 0) & 1, masks.get(id(self.sp_pong), 0) & 1,
+                masks.get(id(self.sp_buf), 0), v)
+
+    def clocks(self, letter):
+        ti, to, mp, mq, mb, v = letter
+        return Tick((self.cds_of((ti, to, v)), {id(self.sp_ping): mp, id(self.sp_pong): mq, id(self.sp_buf): mb}))
+
+    def apply(self, letter):
+        self.netlist.set(self.module.i, letter[5])
+        self.netlist.settle()
+
+    def sample(self):
+        return [self.netlist.getu(self.module.o)]
+
+    def nontrivial(self, letter, outs):
+        # an instant in which some synchroniser source changed, or the output is about to be reloaded
+        return bool(letter[0] and letter[1])
+
+    # mode B: clocks with bounded drift ratio (the property's R = 1..3), slowly changing input words
+    def gen(self, rng, t):
+        if t == 0 or self._pat is None:
+            self._pat = BoundedRatioClocks(rng, self.ratio_max or 3)
+            self._cur = rng.randint(0, (1 << self.width) - 1)
+        ti, to = self._pat.next(rng)
+        if ti and rng.random() < 0.3:
+            self._cur = rng.randint(0, (1 << self.width) - 1)
+        full = (1 << self.width) - 1
+        return (ti, to, rng.randint(0, 1), rng.randint(0, 1), rng.choice((0, full, rng.randint(0, full))), self._cur)
+
+    def monitor(self):
+        return CoherenceMonitor()
+
+
+class BoundedRatioClocks:
+    """Arbitrary interleaving subject to: between two consecutive edges of one clock the other has at most R
+    edges (coincident edges count for both)."""
+    def __init__(self, rng, R):
+        self.R = R
+        self.since_i = 0    # o-edges since the last i-edge
+        self.since_o = 0
+
+    def next(self, rng):
+        can_i_wait = self.since_i < self.R      # another o-only instant is allowed
+        can_o_wait = self.since_o < self.R
+        choices = [(1, 1)]
+        if can_i_wait:
+            choices += [(0, 1)] * 2
+        if can_o_wait:
+            choices += [(1, 0)] * 2
+        ti, to = rng.choice(choices)
+        if ti:
+            self.since_i = 0
+        else:
+            self.since_i += 1
+        if to:
+            self.since_o = 0
+        else:
+            self.since_o += 1
+        return ti, to
+
+
+class CoherenceMonitor:
+    """Property oracle: every word shown on `o` must have been present on `i` at some i-clock edge so far
+    (or be the reset value 0) — never a bit-wise mixture of two different input words."""
+    def __init__(self):
+        self.past = {0}
+
+    def observe(self, letter, outs):
+        ti, to, mp, mq, mb, v = letter
+        msg = None
+        if outs[0] not in self.past:
+            msg = "o = %d was never present on i (past values %s)" % (outs[0], sorted(self.past)[:16])
+        if ti:
+            self.past.add(v)
+        return msg
+
+
+class BusSync1Inst:
+    """BusSynchronizer(width=1): letter (to, i), outputs [o]."""
+    FMT = "to, i"
+
+    def __init__(self, name):
+        from litex.gen.genlib.cdc import BusSynchronizer
+        self.name = name
+        self.module = m = BusSynchronizer(1, "i", "o")
+        self.lean_open = "bussync1"
+        self.netlist = CdcNetlist(m, clocks=("i", "o"))
+        self.qual = [None]
+        self.alphabet = [(to, i) for to in (0, 1) for i in (0, 1)]
+        self.inputs = None
+
+    def clocks(self, letter):
+        return ("o",) if letter[0] else ()
+
+    def apply(self, letter):
+        self.netlist.set(self.module.i, letter[1])
+        self.netlist.settle()
+
+    def sample(self):
+        return [self.netlist.getu(self.module.o)]
+
+    def nontrivial(self, letter, outs):
+        return bool(letter[0])
+
+    def gen(self, rng, t):
+        return (rng.randint(0, 1), rng.randint(0, 1))
+
+
+class PulseSyncInst:
+    """migen PulseSynchronizer("i", "o") as used by stream.Monitor: letter (ti, to, m, i), outputs [o]."""
+    FMT = "ti, to, flop catches new, i"
+
+    def __init__(self, name, spaced=False):
+        from migen.genlib.cdc import PulseSynchronizer
+        self.name = name
+        self.module = m = PulseSynchronizer("i", "o")
+        self.lean_open = "pulsesync"
+        self.sp = own_multiregs(m)[0]
+        self.netlist = CdcNetlist(m, clocks=("i", "o"))
+        self.mask_order = [id(self.sp)]
+        self.qual = [None]
+        self.alphabet = None
+        self.spaced = spaced
+        self._since = 99
+
+    def pst_init(self):
+        return 0
+
+    def pst_next(self, pst, letter, outs):
+        return 0
+
+    def base_letters(self, pst):
+        return [(0, 1, 0), (1, 0, 0), (1, 0, 1), (1, 1, 0), (1, 1, 1)]
+
+    def cds_of(self, base):
+        return tuple(cd for cd, t in (("i", base[0]), ("o", base[1])) if t)
+
+    def make_letter(self, base, masks):
+        return (base[0], base[1], masks.get(id(self.sp), 0) & 1, base[2])
+
+    def clocks(self, letter):
+        return Tick((self.cds_of(letter[:2] + (0,)), {id(self.sp): letter[2]}))
+
+    def apply(self, letter):
+        self.netlist.set(self.module.i, letter[3])
+        self.netlist.settle()
+
+    def sample(self):
+        return [self.netlist.getu(self.module.o)]
+
+    def nontrivial(self, letter, outs):
+        return bool(letter[3] and letter[0]) or bool(outs[0])
+
+    def gen(self, rng, t):
+        if t == 0:
+            self._since = 99
+        ti, to = rng.choice(((1, 0), (0, 1), (1, 1), (0, 1)))
+        if to:
+            self._since += 1
+        i = 0
+        if ti and self._since >= 3 and rng.random() < 0.5:
+            i = 1
+            self._since = 0 if not to else 0
+        return (ti, to, rng.randint(0, 1), i)
+
+    def monitor(self):
+        return PulseMonitor()
+
+
+class PulseMonitor:
+    """Pulses separated by at least 3 destination edges are each delivered exactly once: the number of output
+    pulses (o high at an o-edge) never exceeds the number of input pulses and lags by at most one."""
+    def __init__(self):
+        self.sent = 0
+        self.got = 0
+
+    def observe(self, letter, outs):
+        ti, to, m, i = letter
+        if to and outs[0]:
+            self.got += 1
+        if self.got > self.sent:
+            return "output pulse without input pulse (%d > %d)" % (self.got, self.sent)
+        if ti and i:
+            self.sent += 1
+        if self.sent > self.got + 1:
+            return "input pulse lost (%d sent, %d seen)" % (self.sent, self.got)
+        return None
+
+
+# ---------------------------------------------------------------------------------------------------------------
+# AXILiteClockDomainCrossing: five independent crossings (aw, w, ar master->slave; b, r slave->master)
+
+class AxiLiteCdcInst:
+    """letter : (t_from, t_to, then for aw, w, b, ar, r: mw, mr, valid, token, ready)
+       outputs: for aw, w, b, ar, r: [sink.ready, source.valid, source.token]
+       Model: `afifo_multi` — five independent asynchronous FIFOs; for b and r the write clock is cd_to."""
+    CH = ("aw", "w", "b", "ar", "r")
+    FMT = "t_from, t_to, 5 x (mask write-side flop, mask read-side flop, sink.valid, sink.token, source.ready) for aw,w,b,ar,r"
+
+    def __init__(self, name, cd_from="sys", cd_to="phy", data_width=32, address_width=32):
+        from litex.soc.interconnect.axi import axi_lite
+        from litex.soc.interconnect import stream
+        self.name = name
+        self.cd_from, self.cd_to = cd_from, cd_to
+        master = axi_lite.AXILiteInterface(data_width, address_width)
+        slave = axi_lite.AXILiteInterface(data_width, address_width)
+        self.module = m = axi_lite.AXILiteClockDomainCrossing(master, slave, cd_from, cd_to)
+        cdcs = [sub for _, sub in m._submodules if isinstance(sub, stream.ClockDomainCrossing)]
+        assert len(cdcs) == 5
+        info = []
+        for c in cdcs:
+            af = find_afifo(c)
+            mrs = own_multiregs(af)
+            info.append((c, [sp for sp in mrs if sp.odomain == "write"][0], [sp for sp in mrs if sp.odomain == "read"][0],
+                         log2_int(af.depth)))
+        self.netlist = n = CdcNetlist(m, clocks=(cd_from, cd_to))
+        self.chan = []
+        for ch in self.CH:
+            fwd = ch in ("aw", "w", "ar")
+            sink = getattr(master if fwd else slave, ch)
+            source = getattr(slave if fwd else master, ch)
+            # which crossing serves this channel: the one whose sink.valid follows the channel's valid
+            n.set(sink.valid, 1)
+            n.settle()
+            hit = [x for x in info if n.getu(x[0].sink.valid) == 1]
+            n.set(sink.valid, 0)
+            n.settle()
+            assert len(hit) == 1, "cannot identify the crossing of channel " + ch
+            c, spw, spr, k = hit[0]
+            self.chan.append(dict(name=ch, fwd=fwd, sink=sink, source=source, spw=spw, spr=spr, k=k,
+                                  isigs=ep_fields(sink), osigs=ep_fields(source)))
+        for c in self.chan:
+            c["tokw"] = sum(len(s) for s in c["isigs"])
+        self.lean_open = "afifo_multi " + " ".join(str(c["k"]) for c in self.chan)
+        self.qual = []
+        for j in range(5):
+            self.qual += [None, None, 3 * j + 1]
+        self.alphabet = None
+        self._pat = None
+
+    def _ticks(self, letter, c):
+        tf, tt = letter[0], letter[1]
+        return (tf, tt) if c["fwd"] else (tt, tf)
+
+    def clocks(self, letter):
+        cds = tuple(cd for cd, t in ((self.cd_from, letter[0]), (self.cd_to, letter[1])) if t)
+        masks = {}
+        for j, c in enumerate(self.chan):
+            mw, mr = letter[2 + 5 * j], letter[3 + 5 * j]
+            masks[id(c["spw"])] = mw
+            masks[id(c["spr"])] = mr
+        return Tick((cds, masks))
+
+    def model_letter(self, letter):
+        out = []
+        for j, c in enumerate(self.chan):
+            tw, tr = self._ticks(letter, c)
+            mw, mr, v, d, r = letter[2 + 5 * j: 7 + 5 * j]
+            out += [tw, tr, mw, mr, v, d, r]
+        return out
+
+    def apply(self, letter):
+        n = self.netlist
+        for j, c in enumerate(self.chan):
+            mw, mr, v, d, r = letter[2 + 5 * j: 7 + 5 * j]
+            n.set(c["sink"].valid, v)
+            unpack_fields(n, c["isigs"], d)
+            n.set(c["source"].ready, r)
+        n.settle()
+
+    def sample(self):
+        n = self.netlist
+        out = []
+        for c in self.chan:
+            out += [n.getu(c["sink"].ready), n.getu(c["source"].valid), pack_fields(n, c["osigs"])]
+        return out
+
+    def nontrivial(self, letter, outs):
+        for j, c in enumerate(self.chan):
+            tw, tr = self._ticks(letter, c)
+            if (tw and letter[4 + 5 * j] and outs[3 * j]) or (tr and outs[3 * j + 1] and letter[6 + 5 * j]):
+                return True
+        return False
+
+    def gen(self, rng, t):
+        if t == 0 or self._pat is None:
+            self._pat = ClockPattern(rng)
+        tf, tt = self._pat.next(rng, t)
+        L = [tf, tt]
+        for c in self.chan:
+            full = (1 << (c["k"] + 1)) - 1
+            regime = (t // 61 + len(L)) % 4
+            pv = (0.5, 0.9, 0.2, 1.0)[regime]
+            pr = (0.5, 0.2, 0.9, 1.0)[regime]
+            L += [rng.choice((0, full, rng.randint(0, full))), rng.choice((0, full, rng.randint(0, full))),
+                  1 if rng.random() < pv else 0, rng.randint(0, (1 << c["tokw"]) - 1), 1 if rng.random() < pr else 0]
+        return tuple(L)
+
+    def monitor(self):
+        return _MultiScoreboard(self)
+
+
+class _MultiScoreboard:
+    def __init__(self, inst):
+        self.inst = inst
+        self.sb = [CrossScoreboard(1 << c["k"]) for c in inst.chan]
+
+    def observe(self, letter, outs):
+        for j, c in enumerate(self.inst.chan):
+            tw, tr = self.inst._ticks(letter, c)
+            mw, mr, v, d, r = letter[2 + 5 * j: 7 + 5 * j]
+            m = self.sb[j].observe((tw, tr, mw, mr, v, d, r), outs[3 * j: 3 * j + 3])
+            if m:
+                return "channel %s: %s" % (c["name"], m)
+        return None
